@@ -484,6 +484,62 @@ def pw_suite(ctx):
               slowest_call_s=round(max((r[3] for r in res), default=0), 2))
 
 
+def pw_history_suite(ctx):
+    """The same profile linearised three times in ONE process -- loose tolerance, tight tolerance, loose again: every answer must be the
+    one a fresh process gives for that tolerance (no state kept between calls), and is judged by the model like any other."""
+    n = ctx.budget(24, 300)
+    triples, tries = [], 0
+    while len(triples) < n and tries < 60 * n:
+        tries += 1
+        kind, pts = gen_curve(ctx.rng, ["mono", "plateau", "steps", "convex", "concave", "scurve"], nmax=120)
+        tight = ctx.rng.choice([1 / 16, 1 / 4, 0.1, 0.5, 1.0])
+        loose = tight * ctx.rng.choice([8, 32])
+        hot = ctx.rng.random() < 0.5
+        (ot, et), (ol, el) = run_rdp(pts, tight), run_rdp(pts, loose)
+        if et is not None or el is not None or len(ot) > 10 or len(ot) == len(ol):
+            continue                      # fast path only, and the two tolerances must keep different point sets
+        triples.append((pts, hot, loose, tight))
+    seq = []
+    for pts, hot, loose, tight in triples:
+        seq += [(pts, hot, loose), (pts, hot, tight), (pts, hot, loose)]
+    # the reference answers first: worker processes are forked, so they must be forked before this process has any history
+    fresh = run_pw_many([(pts, hot, tight) for pts, hot, loose, tight in triples], 300, workers=4)   # each profile once per process
+    runs = [run_pw(c) for c in seq]                                   # this process, in this order
+    judged = judge_pw_cases_given(ctx, [seq[3 * i + 1] for i in range(len(triples))], [runs[3 * i + 1] for i in range(len(triples))], "pw_history")
+    agree = bad = 0
+    for i, (pts, hot, loose, tight) in enumerate(triples):
+        ctx.evaluations += 1
+        ctx.count("pw_history")
+        ctx.nontrivial_case(("pw_history", tuple(pts), hot, loose, tight))
+        (o1, e1, _), (o2, e2, _), (o3, e3, _) = runs[3 * i:3 * i + 3]
+        of, ef, _ = fresh[i]
+        if ef == "TIMEOUT":
+            continue
+        if (o2, e2) == (of, ef) and (o1, e1) == (o3, e3):
+            agree += 1
+            continue
+        bad += 1
+        if bad == 1:
+            ctx.fail("pw-call-history", "get_piecewise_data_points answers differently after an earlier call on the same profile with another "
+                     f"tolerance (loose {loose} first, then {tight}): the answer of a fresh process is not reproduced",
+                     input=dict(curve=pts, hot=hot, eps=tight, earlier_eps=loose), impl_output=dict(after_history=o2, fresh=of, first=o1, third=o3),
+                     suite="pw_history", verdict=judged[i][0], predicate="same answer as a fresh process; judge_pw on the answer")
+    ctx.suite("pw_history", cases=len(triples), agree=agree, mismatch=0, property_false=bad, fragile_skipped=0)
+
+
+def judge_pw_cases_given(ctx, cases, runs, suite):
+    cf = CaseFile(ctx, suite, HDR, shard=40)
+    res, idx = [], []
+    for (pts, hot, eps), (out, err, dt) in zip(cases, runs):
+        res.append([None, out, err, dt])
+        if err is None:
+            idx.append(len(res) - 1)
+            cf.add(f"judge_pw {qlit(eps)} {coq_bool(hot)} {cpts(pts)} {cpts(out)}")
+    for i, v in zip(idx, cf.run()):
+        res[i][0] = v
+    return res
+
+
 D16_CURVE = [(float(i), 4e-7 * i * i) for i in range(501)]
 CORPUS_CLEAN = [
     D16_CURVE,                                                            # D16 (open finding): 2 points kept, deviation 0.0249
@@ -555,6 +611,7 @@ def clean_suite(ctx):
 def run(ctx):
     rdp_suite(ctx)
     pw_suite(ctx)
+    pw_history_suite(ctx)
     clean_suite(ctx)
 
 
